@@ -12,6 +12,9 @@ package samlidp
 //@ -- service must not change what another entity ID resolves to)
 //@ -- and an entry, once published, is never written again (requests keep reading it after releasing the lock)
 //@ mapinv Server.serviceProviders nonnil distinct frozen
+//@ -- everything else in the Server (templates, store, logger, the embedded IdP configuration) is read by every request
+//@ -- without a lock: no function that serves a request writes it
+//@ sharedconfig Server
 
 //@ globalinv not_found: ErrNotFound != nil
 //@ globalinv login_template: defaultLoginFormTemplate != nil
